@@ -125,3 +125,33 @@ Proof.
     unfold remap. rewrite Hc. exact Hg.
 Qed.
 Print Assumptions c14_custom_text_iff_carried.
+
+(* ---- the partition key (Model/Format.v msg_key: FNV-1 32 over the %v text of the key fields; compared byte
+   for byte with the key the binary driver returns under every generated mapping file) ---- *)
+(* two flows that agree on the configured key fields get the same key, whatever else differs in them *)
+Theorem c14_key_of_key_fields_only : forall c m m',
+  (forall s, In s (cKeys c) -> key_text c m s = key_text c m' s) -> msg_key c m = msg_key c m'.
+Proof. exact key_fields_only. Qed.
+Print Assumptions c14_key_of_key_fields_only.
+
+(* and a key field that is a column of the message contributes that column's value and nothing else *)
+Theorem c14_key_field_is_its_column : forall c m s j g col k,
+  struct_by_go (remap (cCustoms c) s) = Some (j, g, col, k) -> key_text c m s = Some (show_v (struct_value m g col k)).
+Proof. exact key_text_struct. Qed.
+Print Assumptions c14_key_field_is_its_column.
+
+(* no key fields configured: no key; otherwise a 4-byte key *)
+Theorem c14_key_shape : forall c m k,
+  msg_key c m = Some k -> (cKeys c = [] /\ k = []) \/ (cKeys c <> [] /\ length k = 4%nat).
+Proof. exact key_shape. Qed.
+Print Assumptions c14_key_shape.
+
+(* non-vacuity: FNV-1 of "a" is 0x050c5d7e; a message keyed by its source address *)
+Example c14_key_example :
+  enc_be 4 (fnv1_32 [97]) = [5; 12; 93; 126] /\
+  match compile_fmt {| fFields := []; fRename := []; fRender := []; fKeys := ["src_addr"%string; "src_port"%string] |} [] with
+  | Some c => key_texts c (msetI (msetB empty_msg cSrcAddr [10;0;0;1]) cSrcPort 443) (cKeys c)
+              = Some (bytes_of_string "[10 0 0 1]443")
+  | None => False
+  end.
+Proof. vm_compute. split; reflexivity. Qed.
